@@ -92,6 +92,16 @@ def _chunked(parts):
 BODY = _chunked(BODY_CHUNKS)
 PLAIN = b"".join(BODY_CHUNKS)
 FULL = HEAD + BODY
+HEAD_CL = b"HTTP/1.1 200 OK\r\nContent-Type: text/plain\r\nContent-Length: %d\r\n\r\n" % len(PLAIN)
+FULL_CL = HEAD_CL + PLAIN      # Content-Length framing: a segment can carry > 2*read_bufsize body bytes AND the end
+
+
+def full_of(layout):
+    return FULL_CL if layout == "cl" else FULL
+
+
+def head_end_of(layout):
+    return len(HEAD_CL) if layout == "cl" else len(HEAD)
 
 
 def build_model():
@@ -122,7 +132,7 @@ def build_model():
 # implementation side: one real session, instrumented from outside
 
 class World:
-    def __init__(self, limit=0, offset=0):
+    def __init__(self, limit=0, offset=0, tls=False):
         import aiohttp
         from aiohttp import connector as cmod
         from aiohttp.abc import AbstractResolver
@@ -133,6 +143,16 @@ class World:
 
         class Loop(VLoop):
             async def create_connection(self, protocol_factory, *, ssl=None, sock=None, server_hostname=None, **kw):
+                if ssl is not None:
+                    # the TLS handshake: completes on the "tls" stimulus
+                    tid = w.tid_of.get(asyncio.current_task())
+                    fut = w.loop.create_future()
+                    w.tls_futs[tid] = fut
+                    try:
+                        await fut
+                    finally:
+                        if w.tls_futs.get(tid) is fut:
+                            del w.tls_futs[tid]
                 proto = protocol_factory()
                 tr = MemTransport(self, proto)
                 proto.connection_made(tr)
@@ -196,6 +216,9 @@ class World:
         self.conn_obj: dict = {}
         self.wpaused: dict = {}
         self.conn_futs: dict = {}
+        self.tls_futs: dict = {}
+        self.tls = tls
+        self.url = ("https" if tls else "http") + "://origin.test/p"
         self.sock_started: dict = {}
         self.dns_futs: list = []
         self.dns_calls = 0
@@ -282,13 +305,13 @@ class World:
             if cfg.get("plain"):
                 # no context manager: after a failure inside aiohttp the caller does nothing more, so whatever
                 # cleaning up happens is aiohttp's own; a caller cancelled in its own code closes the response
-                resp = await self.session.request("POST" if body else "GET", "http://origin.test/p", data=body, timeout=tmo)
+                resp = await self.session.request("POST" if body else "GET", self.url, data=body, timeout=tmo)
                 self.head_at[t] = self.tick()
                 await self.gate[t].wait()
                 in_read = True
                 self.bodies[t] = await resp.read()
             else:
-                async with self.session.request("POST" if body else "GET", "http://origin.test/p", data=body,
+                async with self.session.request("POST" if body else "GET", self.url, data=body,
                                                 timeout=tmo) as resp:
                     self.head_at[t] = self.tick()
                     await self.gate[t].wait()
@@ -356,6 +379,10 @@ class World:
             f = self.conn_futs.get(st[1])
             if f is not None and not f.done():
                 f.set_result(None)
+        elif op == "tls":
+            f = self.tls_futs.get(st[1])
+            if f is not None and not f.done():
+                f.set_result(None)
         elif op == "written":
             t = st[1]
             if self.wpaused.get(t) and t in self.tasks and not self.tasks[t].done():
@@ -366,7 +393,7 @@ class World:
                     self.last_io[t] = self.tick()
         elif op == "data":
             t, kind = st[1], st[2]
-            self.deliver(t, next_cut(self.sent.get(t, 0), kind))
+            self.deliver(t, next_cut(self.sent.get(t, 0), kind, self.layout(t)))
         elif op == "bytes":                       # stall sweep: deliver up to an absolute offset
             self.deliver(st[1], st[2])
         elif op == "ws_start":
@@ -408,6 +435,12 @@ class World:
             raise ValueError(op)
         self.settle()
 
+    def layout(self, t):
+        return self.cfg.get(t, {}).get("layout", "chunked")
+
+    def complete(self, t):
+        return self.sent.get(t, 0) >= len(full_of(self.layout(t)))
+
     def last_io_on_resume(self, t):
         tr = self.tr_of.get(t)
         if tr is not None and not tr.reading:
@@ -422,7 +455,7 @@ class World:
             if new > pos:
                 self.sent[t] = new
                 self.last_io[t] = self.tick()
-                tr.protocol.data_received(FULL[pos:new])
+                tr.protocol.data_received(full_of(self.layout(t))[pos:new])
 
     # -- observation
     def bg_tasks(self):
@@ -462,7 +495,7 @@ class World:
             "writer_owners": sorted(str(self.writer_owner(x)) for x in writers),
             "lookup": sum(1 for n, _ in names if "_resolve_host_with_throttle" in n),
             "other_bg": sorted(n for n, _ in names if "_write_bytes" not in n and "_resolve_host_with_throttle" not in n),
-            "cached": int(("origin.test", 80) in c._cached_hosts),
+            "cached": int(("origin.test", 443 if self.tls else 80) in c._cached_hosts),
             "timers": sorted(timers),
             "out": {str(t): list(v) for t, v in sorted(self.outcome.items())},
             "live": sorted(t for t, task in self.tasks.items() if not task.done()),
@@ -525,8 +558,21 @@ def _body_marks():
 _MARKS = _body_marks()
 
 
-def next_cut(pos, kind):
+def next_cut(pos, kind, layout="chunked"):
     """Next offset to deliver up to, starting at pos."""
+    if layout == "cl":
+        he, full = len(HEAD_CL), len(FULL_CL)
+        if kind == "part":
+            if pos < he:
+                return min(pos + 7, he - 3)
+            return min(pos + 5, full - 4) if pos < full - 4 else pos
+        if kind == "head":
+            return he if pos < he else pos
+        if kind == "big":
+            return full - 10 if he <= pos < he + 400 else pos
+        if kind == "end":
+            return full if pos >= he else pos
+        raise ValueError(kind)
     if kind == "part":
         if pos < _HEAD_END:
             return min(pos + 7, _HEAD_END - 3)       # stays inside the head (mid-line)
@@ -551,8 +597,12 @@ def _o(x):
     return "_" if x is None else str(int(x))
 
 
-def ev_word(st):
+def ev_word(st, tls=False):
     op = st[0]
+    if tls and op == "conn":
+        return "A.0"               # TCP connected, TLS handshake pending: the model's connect phase goes on
+    if op == "tls":
+        return f"C.{st[1]}" if tls else "A.0"   # the connection is established when the handshake completes
     if op == "adv":
         return f"A.{st[1]}"
     if op == "start":
@@ -575,7 +625,7 @@ def ev_word(st):
 
 
 def model_line(case):
-    return "RUN %d %d %s" % (TPS, case["limit"], " ".join([f"A.{case.get('offset', 0)}"] + [ev_word(s) for s in case["history"]]))
+    return "RUN %d %d %s" % (TPS, case["limit"], " ".join([f"A.{case.get('offset', 0)}"] + [ev_word(s, case.get("tls", False)) for s in case["history"]]))
 
 
 def parse_snap(txt, offset):
@@ -642,7 +692,7 @@ class Oracle:
         if not has_conn:
             if cfg.get("connect"):
                 out.append((rule(w.started_at[t], cfg["connect"]), "connect"))
-            if t in w.conn_futs and cfg.get("sock_connect"):
+            if (t in w.conn_futs or t in w.tls_futs) and cfg.get("sock_connect"):   # TCP connect + TLS handshake
                 out.append((rule(w.sock_started[t], cfg["sock_connect"]), "sock_connect"))
         else:
             tr = w.tr_of[t]
@@ -655,6 +705,16 @@ class Oracle:
         w, P = self.w, self.problems
         now = snap["now"]
         live = set(snap["live"])
+        # ---- a request's own event must leave the connection of every other request alone (C18_bystander_untouched)
+        reading_now = {t: (w.tr_of[t].reading, id(w.tr_of[t])) for t in live
+                       if t in w.tr_of and not w.tr_of[t].closed and not w.complete(t)}    # t still owns its connection
+        if st and st[0] == "read":
+            for t2, (rd, ident) in reading_now.items():
+                before = getattr(self, "prev_reading", {}).get(t2)
+                if t2 != st[1] and before == (False, ident) and rd and not w.gate[t2].is_set():
+                    P.append(f"the read of request {st[1]} resumed reading on the connection that now belongs to request {t2} "
+                             f"(paused: its buffer is above the high-water mark) and re-armed its sock_read timer")
+        self.prev_reading = reading_now
         # ---- bound: a request whose caller is awaiting must not outlive an applicable deadline
         for t in sorted(live):
             bs = self.applicable_bounds(t, snap)
@@ -699,7 +759,7 @@ class Oracle:
                 continue
             tr = w.tr_of.get(t)
             # when the whole response had arrived before the failure the connection was released at EOF: reuse is fine
-            if tr is not None and w.sent.get(t, 0) < _FULL:
+            if tr is not None and not w.complete(t):
                 if any(p.transport is tr for dq in c._conns.values() for p, _ in dq):
                     P.append(f"the connection of failed request {t} ({kind}) is back in the pool")
                 elif not tr.closed:
@@ -708,6 +768,13 @@ class Oracle:
                     P.append(f"the connection of failed request {t} ({kind}) still occupies a pool slot")
             if str(t) in snap["writer_owners"]:
                 P.append(f"the body writer task of failed request {t} ({kind}) is still running")
+        for dq in c._conns.values():
+            for proto, _ in dq:
+                h = getattr(proto, "_read_timeout_handle", None)
+                if h is not None and not h.cancelled():
+                    P.append(f"a sock_read timer (due at tick {round((h.when() - T0) * TPS)}) is armed on a connection that is idle in the pool")
+                if proto.exception() is not None:
+                    P.append(f"an idle pooled connection carries {type(proto.exception()).__name__}: the next request reusing it fails at once")
         for t, paused_w in w.wpaused.items():
             tr = w.tr_of.get(t)
             if paused_w and tr is not None and any(p.transport is tr for dq in c._conns.values() for p, _ in dq):
@@ -768,6 +835,8 @@ def serve_all(w, skip=()):
         for t in live:
             if t in w.conn_futs:
                 w.apply(["conn", t])
+            if t in w.tls_futs:
+                w.apply(["tls", t])
             if w.wpaused.get(t):
                 w.apply(["written", t])
             if t in w.tr_of and t not in w.head_at:
@@ -791,7 +860,7 @@ def is_injected(st):
 
 def run_impl(case, follow_up=True):
     """-> (list of canonical snapshots, oracle problems)"""
-    w = World(limit=case["limit"], offset=case.get("offset", 0))
+    w = World(limit=case["limit"], offset=case.get("offset", 0), tls=case.get("tls", False))
     orc = Oracle(w)
     snaps = []
     closed = False
@@ -830,7 +899,7 @@ def gen_cfg(rng):
     thr = rng.choice([80, 80, 80, 32])
     kind = rng.random()
     cfg = {"total": None, "connect": None, "sock_connect": None, "sock_read": None, "thr": thr, "block": rng.random() < 0.25,
-           "plain": rng.random() < 0.4}
+           "plain": rng.random() < 0.4, "layout": rng.choice(["chunked", "cl"])}
     if kind < 0.15:
         pass
     elif kind < 0.75:
@@ -841,9 +910,9 @@ def gen_cfg(rng):
     return cfg
 
 
-def gen_history(rng, nreq, limit, offset, steps):
+def gen_history(rng, nreq, limit, offset, steps, tls=False):
     """Drives a scratch World to know which stimuli make sense; returns the history."""
-    w = World(limit=limit, offset=offset)
+    w = World(limit=limit, offset=offset, tls=tls)
     hist = []
     started = 0
     parts: dict = {}
@@ -872,6 +941,8 @@ def gen_history(rng, nreq, limit, offset, steps):
             for t in live:
                 if t in w.conn_futs:
                     opts += [("conn", t)] * 2
+                if t in w.tls_futs:
+                    opts += [("tls", t)] * 2
                 tr = w.tr_of.get(t)
                 if tr is not None and not tr.closed and w.proto_of[t].exception() is not None:
                     # a sock_read timeout is latched: the model excludes further peer data (see ASSUMPTIONS)
@@ -888,16 +959,28 @@ def gen_history(rng, nreq, limit, offset, steps):
                         opts += [("data", t, "head")] * 2
                     else:
                         reading = w.gate[t].is_set()
-                        if not reading:
+                        foreign = w.complete(t) and not tr.reading and any(
+                            t2 != t and w.tr_of.get(t2) is tr for t2 in live)
+                        # (known finding C18-stale-reader-resumes-foreign-connection: reading a completely received
+                        # response resumes the connection even when it now belongs to another, paused request; the
+                        # model does not do that, so random histories stay away from it - the corpus replays it)
+                        if not reading and not foreign:
                             opts += [("read", t)] * 2
                         if tr.reading:
                             lim = 3 if t not in big else 6
-                            if parts.get((t, "b"), 0) < lim:
+                            pos, lay = w.sent.get(t, 0), w.layout(t)
+                            if parts.get((t, "b"), 0) < lim and next_cut(pos, "part", lay) > pos:
                                 opts.append(("data", t, "part"))
-                            if t not in big and parts.get((t, "b"), 0) <= 3:
+                            if t not in big and parts.get((t, "b"), 0) <= 3 and next_cut(pos, "big", lay) > pos:
                                 opts.append(("data", t, "big"))
                             if reading:
                                 opts += [("data", t, "end")] * 2
+                            elif lay == "cl":
+                                # the rest of the body (> 2 x read_bufsize) and its end in one segment while the
+                                # caller is idle: paused and resumed inside feed_eof, connection released at once.
+                                # (chunked: the chunk parser itself pauses mid-segment and the end is only reached
+                                # when the caller reads - not an event of the model)
+                                opts.append(("data", t, "end"))
                 if rng.random() < 0.25:
                     opts.append(("cancel", t))
             opts += [("adv",)] * max(2, len(opts) // 3)
@@ -949,7 +1032,7 @@ def compare_case(ctx, case, suite, m_txt):
     snaps, problems = run_impl(case)
     m_parts = m_txt.split(" | ")[1:] if m_txt is not None else []   # drop the snapshot of the leading offset advance
     first_bad = None
-    for i, s in enumerate(snaps if m_txt is not None else []):
+    for i, s in enumerate(snaps if (m_txt is not None and not case.get("oracle_only")) else []):
         if s is None:
             continue
         if i >= len(m_parts) or m_parts[i].startswith(("STUCK", "EXN", "BADREQ")):
@@ -962,7 +1045,7 @@ def compare_case(ctx, case, suite, m_txt):
             break
     if first_bad is not None:
         i, mo, io = first_bad
-        ctx.disagreement(suite, {"suite": suite, "limit": case["limit"], "offset": off,
+        ctx.disagreement(suite, {"suite": suite, "limit": case["limit"], "offset": off, "tls": case.get("tls", False),
                                  "history": case["history"][: i + 1]}, mo, io)
     ended = [v[0] for v in (snaps[-1]["out"].values() if snaps and snaps[-1] else [])]
     nontrivial = any(k != "ok" for k in ended)
@@ -1009,6 +1092,39 @@ def lookup_gap_cases():
     return out
 
 
+def systematic_cases():
+    """Deterministic histories run on every check (beside the corpus and the random ones)."""
+    def cfg(**kw):
+        c = {"total": None, "connect": None, "sock_connect": None, "sock_read": None, "thr": 80, "block": False, "plain": False}
+        c.update(kw)
+        return c
+    out = []
+    # a whole body larger than the read buffer arrives in ONE segment together with its end (reading is paused and
+    # resumed inside feed_eof), keep-alive; the pooled connection then idles longer than sock_read and is reused
+    for layout in ("cl", "chunked"):
+        for pre in ([], [["data", 0, "part"]], [["data", 0, "big"]]):
+            for idle in (19, 21, 45):
+                for plain in (False, True):
+                    h = [["start", 0, cfg(sock_read=20, total=600, layout=layout, plain=plain)], ["dns"], ["conn", 0], ["tls", 0], ["adv", 2],
+                         ["data", 0, "head"], ["read", 0]] + pre + [["data", 0, "end"], ["adv", idle],
+                         ["start", 1, cfg(sock_read=20, layout=layout)], ["adv", 1], ["data", 1, "head"], ["read", 1], ["data", 1, "end"],
+                         ["adv", 30], ["start", 2, cfg(total=40, layout=layout)], ["data", 2, "head"], ["read", 2], ["data", 2, "end"]]
+                    out.append({"suite": "histories", "limit": 1, "offset": 3, "history": h, "systematic": "pooled_timer"})
+                    if layout == "cl" and not pre:
+                        # the same, but the body and its end arrive while the caller has not started to read
+                        h2 = [["data", 0, "end"], ["adv", 2], ["read", 0]] if idle != 21 else [["data", 0, "end"]]
+                        h2 = h[:6] + h2 + [x for x in h[8:] if x != ["read", 0]]
+                        h2 = h2 + ([["read", 0]] if idle == 21 else [])
+                        out.append({"suite": "histories", "limit": 1, "offset": 3, "history": h2, "systematic": "pooled_timer_idle_end"})
+    # https: the peer accepts the TCP connection and stalls in the TLS handshake; sock_connect / connect / total bound it
+    for which, T in (("sock_connect", 20), ("sock_connect", 100), ("connect", 32), ("total", 38)):
+        for tcp_delay in (1, 7):
+            h = [["start", 0, cfg(**{which: T})], ["adv", 1], ["dns"], ["adv", tcp_delay], ["conn", 0], ["adv", 200],
+                 ["start", 1, cfg(total=600)], ["conn", 1], ["adv", 3], ["tls", 1], ["data", 1, "head"], ["read", 1], ["data", 1, "end"]]
+            out.append({"suite": "histories", "limit": 1, "offset": 5, "history": h, "tls": True, "systematic": "tls_stall"})
+    return out
+
+
 def suite_histories(ctx, exe):
     rng = ctx.rng
     cases = []
@@ -1018,14 +1134,16 @@ def suite_histories(ctx, exe):
         if c.get("suite", "histories") == "histories":
             cases.append(c)
     cases += lookup_gap_cases()
+    cases += systematic_cases()
     n = 0 if os.environ.get("C18_CORPUS_ONLY") else (2500 if ctx.quick else 30000)
     for _ in range(n):
         limit = rng.choice([0, 0, 1, 1, 2])
         nreq = rng.choice([1, 1, 2, 3, 4])
         offset = rng.choice([0, 0, 2, 5, 8, 13, 15])
         steps = rng.randint(6, 16 + 12 * nreq)
-        hist = gen_history(rng, nreq, limit, offset, steps)
-        cases.append({"suite": "histories", "limit": limit, "offset": offset, "history": hist})
+        tls = rng.random() < 0.2
+        hist = gen_history(rng, nreq, limit, offset, steps, tls)
+        cases.append({"suite": "histories", "limit": limit, "offset": offset, "history": hist, "tls": tls})
     lines = [model_line(c) for c in cases]
     answers = fw.run_model(exe, lines) if exe is not None else [None] * len(cases)
     ran = 0
@@ -1427,8 +1545,26 @@ def replay(ctx, case):
     return {"violates": None, "note": "unknown suite"}
 
 
+def _sig_stale_reader(case, params):
+    """History in which a response that was completely received before its caller read it is read after its
+    connection went to another request that has been paused by a large block."""
+    h = case.get("history") or []
+    for i, st in enumerate(h):
+        if st[0] != "read":
+            continue
+        t = st[1]
+        ended = [j for j in range(i) if h[j][:3] == ["data", t, "end"]]
+        if not ended or any(h[j][:2] == ["read", t] for j in range(ended[-1])):
+            continue
+        for j in range(ended[-1], i):
+            if h[j][0] == "data" and h[j][2] == "big" and h[j][1] != t and not any(h[k][:2] == ["read", h[j][1]] for k in range(j)):
+                return True
+    return False
+
+
 def _sig_ws_chatty(case, params):
     return case.get("suite") == "ws_close" and case.get("peer") == "text" and case.get("cancel_k") is None
 
 
-SIGNATURES: dict = {"ws_close_not_returned_chatty_peer": _sig_ws_chatty}
+SIGNATURES: dict = {"ws_close_not_returned_chatty_peer": _sig_ws_chatty,
+                    "stale_reader_resumes_foreign_connection": _sig_stale_reader}
